@@ -909,6 +909,9 @@ func (o *ovsdbClient) MonitorCancel(ctx context.Context, cookie MonitorCookie) e
 func (o *ovsdbClient) Monitor(ctx context.Context, monitor *Monitor) (MonitorCookie, error) {
 	cookie := newMonitorCookie(o.primaryDBName)
 	db := o.databases[o.primaryDBName]
+	// lock order: rpcMutex before monitorsMutex, as in connect and MonitorCancel
+	o.rpcMutex.RLock()
+	defer o.rpcMutex.RUnlock()
 	db.monitorsMutex.Lock()
 	defer db.monitorsMutex.Unlock()
 	return cookie, o.monitor(ctx, cookie, false, monitor)
@@ -928,15 +931,11 @@ func newMonitorRequest(data *mapper.Info, fields []string, conditions []ovsdb.Co
 	return &ovsdb.MonitorRequest{Columns: columns, Where: conditions, Select: ovsdb.NewDefaultMonitorSelect()}, nil
 }
 
-// monitor must only be called with a lock on monitorsMutex
+// monitor must only be called with a lock on rpcMutex (read or write) and,
+// taken after it, a lock on monitorsMutex
 //
 //gocyclo:ignore
 func (o *ovsdbClient) monitor(ctx context.Context, cookie MonitorCookie, reconnecting bool, monitor *Monitor) error {
-	// if we're reconnecting, we already hold the rpcMutex
-	if !reconnecting {
-		o.rpcMutex.RLock()
-		defer o.rpcMutex.RUnlock()
-	}
 	if o.rpcClient == nil {
 		return ErrNotConnected
 	}
@@ -1156,6 +1155,8 @@ func (o *ovsdbClient) watchForLeaderChange() error {
 	m.Method = ovsdb.ConditionalMonitorRPC
 	m.Tables = []TableMonitor{{Table: "Database"}}
 	db := o.databases[serverDB]
+	o.rpcMutex.RLock()
+	defer o.rpcMutex.RUnlock()
 	db.monitorsMutex.Lock()
 	defer db.monitorsMutex.Unlock()
 	err := o.monitor(context.Background(), newMonitorCookie(serverDB), false, m)
@@ -1366,6 +1367,12 @@ func (o *ovsdbClient) handleDisconnectNotification() {
 	o.rpcMutex.Unlock()
 
 	for _, db := range o.databases {
+		// monitorsMutex first: Monitor holds it while it takes the other two
+		db.monitorsMutex.Lock()
+		defer db.monitorsMutex.Unlock()
+		db.monitors = make(map[string]*Monitor)
+
+		verifPoint("disconnect.cleanup")
 		db.cacheMutex.Lock()
 		defer db.cacheMutex.Unlock()
 		db.cache = nil
@@ -1376,11 +1383,6 @@ func (o *ovsdbClient) handleDisconnectNotification() {
 		db.modelMutex.Lock()
 		defer db.modelMutex.Unlock()
 		db.model = model.NewPartialDatabaseModel(db.model.Client())
-
-		verifPoint("disconnect.cleanup")
-		db.monitorsMutex.Lock()
-		defer db.monitorsMutex.Unlock()
-		db.monitors = make(map[string]*Monitor)
 	}
 	o.metrics.numMonitors.Set(0)
 
